@@ -217,10 +217,35 @@ func runTLS(cs *caseT, preChunks []int, msgs [][]byte) (o *obsT, handshake strin
 	return o, handshake, rawOK, turnBase
 }
 
-func runC11(c *runCfg) error {
+// tlsDial sends an SSLRequest on the connection and, when the server answers 'S', completes a TLS handshake.
+func tlsDial(conn *memConn) (*tls.Conn, *clientSide, bool) {
+	conn.push(sslRequest())
+	conn.waitIdle(idleTimeout)
+	side := &clientSide{c: conn}
+	first := make([]byte, 1)
+	if _, err := io.ReadFull(side, first); err != nil || first[0] != 'S' {
+		return nil, side, false
+	}
+	tc := tls.Client(side, &tls.Config{InsecureSkipVerify: true})
+	hsDone := make(chan error, 1)
+	go func() { hsDone <- tc.HandshakeContext(context.Background()) }()
+	select {
+	case err := <-hsDone:
+		if err != nil {
+			return nil, side, false
+		}
+	case <-time.After(5 * time.Second):
+		conn.Close()
+		return nil, side, false
+	}
+	return tc, side, true
+}
+
+// tlsOnly: the ids named in a replay file (TLS sessions are re-generated with the same seed and
+// only the named cases are run again)
+func tlsOnly(c *runCfg) map[string]bool {
 	only := map[string]bool{}
 	if c.replay != "" {
-		// TLS sessions are re-generated (same seed) and only the cases named in the replay file are run again
 		if b, err := os.ReadFile(c.replay); err == nil {
 			for _, l := range strings.Split(string(b), "\n") {
 				if strings.HasPrefix(l, "(sess ") {
@@ -229,36 +254,49 @@ func runC11(c *runCfg) error {
 			}
 		}
 	}
+	return only
+}
+
+// emitTLS runs one SSLRequest (+ TLS) session and writes case + observation; [id] is advanced.
+func emitTLS(c *runCfg, only map[string]bool, id *int, class string, cfg cfgT, pre []byte, preChunks []int, msgs [][]byte, pairID string) {
+	cs := &caseT{id: fmt.Sprint(*id), class: class, cfg: cfg, raw: pre, lock: true}
+	if pairID != "" {
+		cs.id = pairID
+	}
+	if (len(only) > 0 && !only[cs.id]) || hangTotal.Load() >= maxHangs {
+		*id++
+		return
+	}
+	var tlsin []byte
+	for _, m := range msgs {
+		tlsin = append(tlsin, m...)
+	}
+	t0 := time.Now()
+	o, hs, rawOK, base := runTLS(cs, preChunks, msgs)
+	if o.hang {
+		hangTotal.Add(1)
+	}
+	if d := time.Since(t0); d > time.Second && os.Getenv("C11_TIMING") != "" {
+		fmt.Fprintln(os.Stderr, "slow", class, d)
+	}
+	cs.hasTLS = true
+	cs.tls = tlsin
+	cs.chunks = nil
+	cs.pre = 1
+	// the model is told whether the TLS handshake succeeded (crypto/tls is an oracle)
+	head := cs.sxHead()
+	c.out.line("(sess " + cs.id + " " + class + " " + head + " " + sx("tlsobs", sx("handshake", hs), sx("rawok", rawOK), sx("nmsgs", len(msgs)), sx("turnbase", base), sx("prechunks", map[bool]int{true: 2, false: 1}[cfg.auth != "none"])) + " " + o.sx(true) + ")")
+	c.stat("class_" + class)
+	c.stat("handshake_" + hs)
+	*id++
+}
+
+func runC11(c *runCfg) error {
+	only := tlsOnly(c)
 	g := &gen{rng: c.rng}
 	id := 0
 	emit := func(class string, cfg cfgT, pre []byte, preChunks []int, msgs [][]byte, pairID string) {
-		cs := &caseT{id: fmt.Sprint(id), class: class, cfg: cfg, raw: pre, lock: true}
-		if pairID != "" {
-			cs.id = pairID
-		}
-		if len(only) > 0 && !only[cs.id] {
-			id++
-			return
-		}
-		var tlsin []byte
-		for _, m := range msgs {
-			tlsin = append(tlsin, m...)
-		}
-		t0 := time.Now()
-		o, hs, rawOK, base := runTLS(cs, preChunks, msgs)
-		if d := time.Since(t0); d > time.Second && os.Getenv("C11_TIMING") != "" {
-			fmt.Fprintln(os.Stderr, "slow", class, d)
-		}
-		cs.hasTLS = true
-		cs.tls = tlsin
-		cs.chunks = nil
-		cs.pre = 1
-		// the model is told whether the TLS handshake succeeded (crypto/tls is an oracle)
-		head := cs.sxHead()
-		c.out.line("(sess " + cs.id + " " + class + " " + head + " " + sx("tlsobs", sx("handshake", hs), sx("rawok", rawOK), sx("nmsgs", len(msgs)), sx("turnbase", base), sx("prechunks", map[bool]int{true: 2, false: 1}[cfg.auth != "none"])) + " " + o.sx(true) + ")")
-		c.stat("class_" + class)
-		c.stat("handshake_" + hs)
-		id++
+		emitTLS(c, only, &id, class, cfg, pre, preChunks, msgs, pairID)
 	}
 	session := func() [][]byte {
 		return [][]byte{startupMsg("user", "tlsuser", "database", "db"), mQuery([]byte("select 1")), mParse(nil, []byte("select 1"), 0), mBind(nil, nil, nil, nil, nil), mExecute(nil, 0), mSync(), mQuery([]byte("   ")), mTerminate()}
